@@ -88,7 +88,7 @@ class Flags:
         self.no_ops = set(no_ops)
         self.guards = set(guards)
         self.no_features = set(no_features)
-        self.extras = set(extras)  # opt-in shapes: "limit_edges" (memory / table limits 0, min == max, 65536)
+        self.extras = set(extras)  # opt-in shapes: "limit_edges" (memory / table limits 0, min == max)
 
     def has(self, feature):
         return feature not in self.no_features
@@ -587,7 +587,7 @@ def cases(draw, flags=None, max_funcs=4, fuel=40, depth=5, ncalls=4):
         if "limit_edges" in flags.extras and draw(st.integers(0, 2)) == 0:
             mn = draw(st.sampled_from([0, 0, 1, 2]))
             mx = draw(st.integers(0, 9))
-            desc["mem"] = {"min": mn, "max": mn if mx < 6 else mn + 1 if mx < 8 else 65536 if mx < 9 else None}
+            desc["mem"] = {"min": mn, "max": mn if mx < 6 else mn + 1 if mx < 8 else mn + 2 if mx < 9 else None}
         mod.mem = desc["mem"]
         if flags.has("data") and desc["mem"]["min"] > 0:
             for _ in range(draw(st.integers(0, 2))):
